@@ -257,39 +257,12 @@ def _cx(run, ci):
 
 
 def _fresh_per_iteration(run, ci, fn):
-    """A list that is filled inside a loop and handed on (stored in another container) once per iteration must be created in
-    that same iteration; created once outside, every stored reference is the same growing list: each excited state would be
-    weighted with the populations of all of them."""
+    from ._fresh import fresh_per_iteration
     run.describe('C05-R5', 'per-state population lists are created afresh for every excited state (no list shared between iterations)')
-    creations = {}
-    for st in ast.walk(fn):
-        if isinstance(st, ast.Assign) and len(st.targets) == 1 and isinstance(st.targets[0], ast.Name) and (
-                isinstance(st.value, ast.List) and not st.value.elts or (isinstance(st.value, ast.Call) and dotted(st.value.func) == 'list' and not st.value.args)):
-            creations.setdefault(st.targets[0].id, []).append(st)
-    n = 0
-    for lp in [l for l in ast.walk(fn) if isinstance(l, ast.For)]:
-        for name, cs in creations.items():
-            grows = [c for c in ast.walk(lp) if isinstance(c, ast.Call) and isinstance(c.func, ast.Attribute) and c.func.attr in ('append', 'extend')
-                     and isinstance(c.func.value, ast.Name) and c.func.value.id == name]
-            escapes = [c for c in ast.walk(lp) if isinstance(c, ast.Call) and isinstance(c.func, ast.Attribute) and c.func.attr == 'append'
-                       and not (isinstance(c.func.value, ast.Name) and c.func.value.id == name)
-                       and any(isinstance(x, ast.Name) and x.id == name for a in c.args for x in ast.walk(a))]
-            if not grows or not escapes:
-                continue
-            n += 1
-            run.subject('C05-R5')
-            inside = [c for c in cs if any(x is c for x in ast.walk(lp))]
-            if inside:
-                run.ok('C05-R5', '%s.%s list %s' % (ci.name, fn.name, name), 'created inside the loop that stores it')
-            else:
-                run.fail('C05-R5', '%s|%s|%s|shared-list:%s' % (ci.mod.name, ci.name, fn.name, name), ci.mod.relpath, escapes[0].lineno,
-                         "%s.%s stores the list '%s' once per iteration of the loop at line %d but creates it only once, outside that loop: every "
-                         "stored entry is the same list and keeps growing, so each metastable state is weighted with the populations of all of them"
-                         % (ci.name, fn.name, name, lp.lineno))
+    n = fresh_per_iteration(run, 'C05-R5', ci.name, ci.mod, fn, describe=False)
     if n == 0:
         run.subject('C05-R5')
         run.undecided('C05-R5', '%s.%s' % (ci.name, fn.name), 'no per-iteration list recognised')
-
 
 def _charged_sum(run, ci, fn, data, cf_hint, mean):
     """sum_i (Z_i n_i) c_i(E_int,i, sum_j Z_j^2 n_j / Z_i, T_i) [ / sum_i Z_i n_i ]"""
